@@ -493,8 +493,8 @@ def _r034(ctx: Ctx) -> None:
 
 # in-place by contract (name and docstring say so); everything else in the two modules is a function of its arguments
 _INPLACE_BY_CONTRACT = {
-    'panqec.bsparse.insert_mod2': 'documented in-place insertion into a row matrix',
-    'panqec.bpauli.gf2_rank': 'rank helper (neither a product nor a converter); consumes the list of ints it is given - '
+    'insert_mod2': 'documented in-place insertion into a row matrix',
+    'gf2_rank': 'rank helper (neither a product nor a converter); consumes the list of ints it is given - '
                               'its only caller, brank, passes a fresh list',
 }
 
@@ -508,7 +508,7 @@ def _r035(ctx: Ctx) -> None:
            and isinstance(f.fn, (ast.FunctionDef,)) and f.qual.count('.') == 2]
     ctx.need(len(fis) >= 25, 'R03.5', 'panqec/bpauli.py', f'only {len(fis)} functions found in bpauli/bsparse')
     for f in sorted(fis, key=lambda f: f.qual):
-        if f.qual in _INPLACE_BY_CONTRACT:
+        if f.qual.split('.')[-1] in _INPLACE_BY_CONTRACT:      # by function name: the helpers may move between the two modules
             continue
         bad = [s_ for s_ in f.stores if any(r.startswith('P') and r[1:].isdigit() for r in s_.roots)]
         via = sorted(f.mut_params)
